@@ -643,4 +643,233 @@ theorem defs_sem : ∀ (defs : List (String × BExp)) (scope : List String) (env
     · exact hsub r (by simp)
     · exact hmem p hp
 
+/-! ### `compile` -/
+
+theorem addInputs_keys : ∀ (ns : List String) {u : Unit} {s s' : CState},
+    (addInputs ns).run s = .ok (u, s') →
+    (∀ p ∈ s'.qc.qmap, p ∈ s.qc.qmap ∨ p.1 ∈ ns) ∧ s'.qc.gatesComputed = s.qc.gatesComputed
+  | [], u, s, s', h => by
+    unfold addInputs at h
+    obtain ⟨_, rfl⟩ := run_pure_ok.mp h
+    exact ⟨fun p hp => Or.inl hp, rfl⟩
+  | n :: ns, u, s, s', h => by
+    unfold addInputs at h
+    obtain ⟨u1, s1, hd, h1⟩ := run_bind_ok.mp h
+    obtain ⟨i0, hadd⟩ := run_discard_ok.mp hd
+    have hs1 := (addQubit_run hadd).2
+    obtain ⟨h2, h3⟩ := addInputs_keys ns h1
+    rw [hs1] at h2 h3
+    refine ⟨fun p hp => ?_, h3⟩
+    rcases h2 p hp with h' | h'
+    · rcases mem_dictSet h' with h'' | rfl
+      · exact Or.inl h''
+      · exact Or.inr List.mem_cons_self
+    · exact Or.inr (List.mem_cons_of_mem _ h')
+
+/-- the state after the argument qubits have been added satisfies the invariants, for the initial basis
+state of input `x` -/
+theorem init_pre2 {inputs : List String} {cs : List Nat} {x : List Bool} {u : Unit} {s1 : CState} (N : Nat)
+    (hin : (addInputs inputs).run { choices := cs, inputs := inputs } = .ok (u, s1))
+    (hnd : inputs.Nodup) (hfresh : ∀ n ∈ inputs, reservedName n = false) (hx : x.length = inputs.length) :
+    Pre2 inputs (envOf (inputs.zip x)) (toF (initState x N)) s1 ∧ s1.qc.marked = [] ∧
+      s1.qc.gatesComputed.toList = [] ∧ s1.expq = [] ∧ s1.qc.numQubits = inputs.length := by
+  have hg0 : Good { choices := cs, inputs := inputs } := good_init cs inputs
+  obtain ⟨st1, hn1, _, hpos⟩ := addInputs_ok inputs hin hg0
+  obtain ⟨ha1, hf1, hm1⟩ := addInputs_scratch inputs hin
+  obtain ⟨hga1, hex1, _⟩ := addInputs_quiet inputs hin
+  obtain ⟨hkeys, hgc1⟩ := addInputs_keys inputs hin
+  have hn1' : s1.qc.numQubits = inputs.length := by rw [hn1]; simp
+  have hcur : ∀ q, cur (toF (initState x N)) s1 q = x.getD q false := by
+    intro q
+    show runF s1.qc.gates.toList _ q = _
+    rw [hga1]
+    show (initState x N).getD q false = _
+    rw [initState_getD]
+  have hbind : ∀ (i : Nat) (n : String), inputs[i]? = some n → dictGet? s1.qc.qmap n = some i := by
+    intro i n hi
+    have := hpos hnd hfresh i n hi
+    simpa using this
+  refine ⟨⟨st1.good, ?_, ?_, ?_, hfresh, (by rw [hf1]; exact List.nodup_nil),
+    (by rw [hf1]; intro q hq; exact absurd hq List.not_mem_nil),
+    (by rw [hm1]; intro q hq; exact absurd hq List.not_mem_nil)⟩, hm1, (by rw [hgc1]), hex1, hn1'⟩
+  · intro q hq
+    rw [hcur]
+    have hge : inputs.length ≤ q := by
+      rcases hq with hq | hq
+      · rw [hf1] at hq; cases hq
+      · rw [hn1'] at hq; exact hq
+    have : x[q]? = none := by simp; omega
+    simp [List.getD_eq_getElem?_getD, this]
+  · intro n q hk hq
+    have hmem := dictGet?_mem hq
+    have hin' : n ∈ inputs := by
+      rcases hkeys _ hmem with h' | h'
+      · cases h'
+      · exact h'
+    obtain ⟨i, hi⟩ := idx_of_mem hin'
+    have hqi : q = i := by
+      have := hbind i n hi
+      rw [hq] at this; exact Option.some.inj this
+    refine ⟨by rw [hf1]; exact List.not_mem_nil, by rw [ha1]; exact List.not_mem_nil, ?_⟩
+    rw [hcur, kval_scope hfresh hin', hqi, envOf_zip hnd hi]
+  · intro n hn
+    obtain ⟨i, hi⟩ := idx_of_mem hn
+    exact ⟨i, hbind i n hi⟩
+
+/-- **straight-line definition lists, final uncomputation off**: after every successful run of `compile` the
+qubit mapped to a defined name ends with the value the reference semantics `evalDefs` gives the name, on
+every input -/
+theorem compile_named_sem {inputs : List String} {defs : List (String × BExp)} {rets : List String}
+    {cs : List Nat} {s : CState}
+    (h : (compile inputs defs (some rets) false).run { choices := cs } = .ok ((), s))
+    (hnd : inputs.Nodup) (hfresh : ∀ n ∈ inputs, reservedName n = false)
+    (hsl : slDefs inputs defs = true) (hdist : Distinct (defs.flatMap (fun p => compKeys p.2)))
+    (x : List Bool) (hx : x.length = inputs.length) (r : String) (hr : ∃ p ∈ defs, p.1 = r) :
+    ∃ q, dictGet? s.qc.qmap r = some q ∧
+      (runClassical s.qc.gates.toList (initState x s.qc.numQubits)).getD q false =
+        envOf (evalDefs defs (inputs.zip x)) r := by
+  have hgs : Good s := (compile_ok h).1
+  unfold compile at h
+  obtain ⟨u0, s0, hmod, h1⟩ := run_bind_ok.mp h
+  have := run_modify_ok.mp hmod; subst this
+  obtain ⟨u1, s1, hin, h2⟩ := run_bind_ok.mp h1
+  obtain ⟨u2, s2, hdefs, h3⟩ := run_bind_ok.mp h2
+  obtain ⟨u3, s3, hrem, h4⟩ := run_bind_ok.mp h3
+  obtain ⟨hrg, hrq, hrn⟩ := removeIdentities_run hrem
+  have hs3 : s = s3 := by
+    dsimp only at h4
+    rcases run_ite_ok.mp h4 with ⟨hc, _⟩ | ⟨_, h4⟩
+    · cases hc
+    · exact (run_pure_ok.mp h4).2
+  subst hs3
+  obtain ⟨hp1, hm1, hgc1, hex1, hn1⟩ := init_pre2 s.qc.numQubits hin hnd hfresh hx
+  have hinv1 : Inv inputs (envOf (inputs.zip x)) (toF (initState x s.qc.numQubits)) [] s1 :=
+    ⟨hp1, hm1, (by rw [hgc1]; intro g hg; exact absurd hg List.not_mem_nil),
+      (by rw [hex1]; intro p hp; exact absurd hp List.not_mem_nil)⟩
+  obtain ⟨scope', done', hfin, _, hmem⟩ := defs_sem defs inputs (inputs.zip x) [] hdefs hinv1 hsl
+    (by simpa using hdist)
+  obtain ⟨p, hpd, rfl⟩ := hr
+  have hrs : p.1 ∈ scope' := hmem p hpd
+  obtain ⟨q, hq⟩ := hfin.pre.bound p.1 hrs
+  have hval := (hfin.pre.tbl p.1 q (Or.inl hrs) hq).2.2
+  rw [kval_scope hfin.pre.scopeOK hrs] at hval
+  have hg2 := hfin.pre.good
+  refine ⟨q, by rw [hrq]; exact hq, ?_⟩
+  rw [hrg, removeIdentitiesList_sound _ (fun g hg => (hg2.gates_ok g hg).2.1)]
+  have hlen : (initState x s.qc.numQubits).length = s.qc.numQubits :=
+    initState_length x _ (by
+      rw [hrn, hx, ← hn1]
+      exact (compileDefs_ok (B := fun _ => True) defs hdefs hp1.good (fun _ _ => trivial)).1.nq_le)
+  have hspec := congrFun (runF_spec s2.qc.gates.toList (initState x s.qc.numQubits) (by
+    intro g hg w hw
+    rw [hlen, hrn]
+    exact (hg2.gates_ok g hg).2.2.1 w hw)) q
+  exact hspec.trans hval
+
+/-- **one definition `r = e` with constants**, with or without final uncomputation: after every successful
+run of `compile` the qubit mapped to `r` ends with the value of `e`, on every input (the statement loop and
+the final `uncompute_all` are handled as in `compile_single_sem`: no replayed gate targets the result qubit) -/
+theorem compile_const_sem {inputs : List String} {r : String} {e : BExp} {rets : List String}
+    {unc : Bool} {cs : List Nat} {s : CState}
+    (h : (compile inputs [(r, e)] (some rets) unc).run { choices := cs } = .ok ((), s))
+    (hr : unc = true → r ∈ rets)
+    (hnd : inputs.Nodup) (hfresh : ∀ n ∈ inputs, n ≠ r ∧ reservedName n = false)
+    (hrT : r ≠ "TRUE" ∧ r ≠ "FALSE")
+    (hwf : wfExp inputs true e = true) (hdist : Distinct (compKeys e))
+    (x : List Bool) (hx : x.length = inputs.length) :
+    ∃ q, dictGet? s.qc.qmap r = some q ∧
+      (runClassical s.qc.gates.toList (initState x s.qc.numQubits)).getD q false =
+        e.eval (envOf (inputs.zip x)) := by
+  have hgs : Good s := (compile_ok h).1
+  unfold compile at h
+  obtain ⟨u0, s0, hmod, h1⟩ := run_bind_ok.mp h
+  have := run_modify_ok.mp hmod; subst this
+  have hg0 : Good { choices := cs, inputs := inputs } := good_init cs inputs
+  obtain ⟨u1, s1, hin, h2⟩ := run_bind_ok.mp h1
+  obtain ⟨st1, _, _, _⟩ := addInputs_ok inputs hin hg0
+  obtain ⟨u2, s2, hdefs, h3⟩ := run_bind_ok.mp h2
+  obtain ⟨st2, _⟩ := compileDefs_ok (B := (· = r)) [(r, e)] hdefs st1.good
+    (fun p hp => by simp at hp; rw [hp])
+  have hg2 := st2.good
+  obtain ⟨u3, s3, hrem, h4⟩ := run_bind_ok.mp h3
+  obtain ⟨hrg, hrq, hrn⟩ := removeIdentities_run hrem
+  have hfin : ∃ extra, s.qc.gates.toList = s3.qc.gates.toList ++ extra ∧
+      (∀ g ∈ extra, unc = true ∧ (rets.filterMap (dictGet? s3.qc.qmap)).contains g.target = false) ∧
+      s.qc.qmap = s3.qc.qmap ∧ s.qc.numQubits = s3.qc.numQubits := by
+    dsimp only at h4
+    rcases run_ite_ok.mp h4 with ⟨hc, h4⟩ | ⟨_, h4⟩
+    · obtain ⟨qc, s4, hq, h5⟩ := run_bind_ok.mp h4
+      obtain ⟨rfl, rfl⟩ := getQC_run hq
+      obtain ⟨extra, e1, e2, e3, e4⟩ := uncomputeAll_gates h5
+      exact ⟨extra, e1, fun g hg => ⟨hc, e2 g hg⟩, e3, e4⟩
+    · obtain ⟨_, rfl⟩ := run_pure_ok.mp h4
+      exact ⟨[], by simp, by simp, rfl, rfl⟩
+  obtain ⟨extra', f1, f2, f3, f4⟩ := hfin
+  obtain ⟨hp1, hm1, _, hex1, hn1'⟩ := init_pre2 s.qc.numQubits hin hnd (fun n hn => (hfresh n hn).2) hx
+  have hnin2 : inputs.length ≤ s2.qc.numQubits := by rw [← hn1']; exact st2.nq_le
+  -- the statement loop
+  unfold compileDefs at hdefs
+  dsimp only at hdefs
+  obtain ⟨iret, t1, he, k1⟩ := run_bind_ok.mp hdefs
+  obtain ⟨u4, t2, hset, k2⟩ := run_bind_ok.mp k1
+  obtain ⟨u5, t3, hmap, k3⟩ := run_bind_ok.mp k2
+  obtain ⟨unc', t4, hunc, k4⟩ := run_bind_ok.mp k3
+  obtain ⟨u6, t5, hrm, k5⟩ := run_bind_ok.mp k4
+  unfold compileDefs at k5
+  obtain ⟨_, rfl⟩ := run_pure_ok.mp k5
+  have hrK : ∀ m, Known inputs m → m ≠ r := by
+    rintro m (hm | rfl | rfl)
+    · exact (hfresh m hm).1
+    · exact fun e' => hrT.1 e'.symm
+    · exact fun e' => hrT.2 e'.symm
+  obtain ⟨hpt1, sem1, hnav1, hval⟩ := topExpr2 (wo := true) he hp1 hwf hdist hrK
+    (by intro p hp'; rw [hex1] at hp'; cases hp')
+  have hnm : iret ∉ t1.qc.marked := by
+    intro hm
+    rcases sem1.marks iret hm with h' | h'
+    · rw [hm1] at h'; cases h'
+    · exact h'.1.2.2 rfl
+  have hlt : iret < t1.qc.numQubits := notAvail_lt hnav1
+  have q2 : Step (· = r) t1 t2 := expqSet_ok hset hpt1.good hlt
+  obtain ⟨hqc2, _⟩ := expqSet_run hset
+  obtain ⟨q3, hkey⟩ := mapQubit_ok (B := (· = r)) hmap q2.good (Nat.lt_of_lt_of_le hlt q2.nq_le) rfl
+    (by intro hp
+        have : r.startsWith "__" = true := by simpa using hp
+        simp [scratchName, this])
+  obtain ⟨hg3, hm3, _⟩ := mapQubit_run hmap
+  obtain ⟨extra, e1, e2, e3, e4⟩ := uncompute_gates hunc
+  have hqc5 := expqRemove_run hrm
+  have hcur : cur (toF (initState x s.qc.numQubits)) s2 iret = e.eval (envOf (inputs.zip x)) := by
+    unfold cur
+    rw [hqc5, e1, runF_append, untargeted_runF]
+    · rw [hg3, hqc2]; exact hval
+    · intro g hg hlast
+      have ht : g.target = iret := by unfold AGate.target; rw [hlast]; rfl
+      have := e2 g hg
+      rw [ht, hm3, hqc2] at this
+      exact hnm this
+  have hkey3 : dictGet? s3.qc.qmap r = some iret := by rw [hrq, hqc5, e3]; exact hkey
+  refine ⟨iret, by rw [f3]; exact hkey3, ?_⟩
+  rw [f1, hrg, runClassical_append, removeIdentitiesList_sound _ (fun g hg => (hg2.gates_ok g hg).2.1),
+    ← runClassical_append]
+  have hN : s.qc.numQubits = s2.qc.numQubits := f4.trans hrn
+  have hlen : (initState x s.qc.numQubits).length = s.qc.numQubits :=
+    initState_length x _ (by rw [hN, hx]; exact hnin2)
+  have hspec := congrFun (runF_spec (s2.qc.gates.toList ++ extra') (initState x s.qc.numQubits) (by
+    intro g hg w hw
+    rw [hlen]
+    rcases List.mem_append.mp hg with hg | hg
+    · rw [hN]; exact (hg2.gates_ok g hg).2.2.1 w hw
+    · exact (hgs.gates_ok g (by rw [f1]; exact List.mem_append_right _ hg)).2.2.1 w hw)) iret
+  refine hspec.trans ?_
+  rw [runF_append, untargeted_runF]
+  · exact hcur
+  · intro g hg hlast
+    have ht : g.target = iret := by unfold AGate.target; rw [hlast]; rfl
+    obtain ⟨hu, hk⟩ := f2 g hg
+    rw [ht] at hk
+    have : iret ∈ rets.filterMap (dictGet? s3.qc.qmap) := List.mem_filterMap.mpr ⟨r, hr hu, hkey3⟩
+    have : (rets.filterMap (dictGet? s3.qc.qmap)).contains iret = true := by simpa using this
+    rw [hk] at this; cases this
+
 end QV.Compiler
